@@ -6,6 +6,11 @@ namespace CaddyModel.Gen
     TLSConnPolicies.Provision (which zeroes the raw verifier config Active() looks at); helpers of app.go are followed -/
 def httpProvisionOrder : List String := ["automaticHTTPSPhase1", "hasTLSClientAuth", "wrapPrimaryRoute", "TLSConnPolicies.Provision"]
 
+/-- listeners.go (*sharedQUICState).addState: number of its own return statements, and whether one of them returns
+    the bare cancel function obtained from context.WithCancel (which does not unregister the tls.Config) -/
+def quicAddStateReturns : Nat := 2
+def quicAddStateReturnsBareCancel : Bool := false
+
 /-- admin.go replaceRemoteAdminServer: every value assigned to a `.ClientAuth` field -/
 def remoteAdminClientAuth : List String := ["tls.RequireAndVerifyClientCert"]
 
@@ -75,5 +80,9 @@ def replacerCallSites : List (String × String × String × String) := [
   ("staticresp.go", "ServeHTTP", "ReplaceKnown", "s.Body"),
   ("staticresp.go", "ServeHTTP", "ReplaceAll", "codeStr")
 ]
+
+/-- modules/caddyhttp/autohttps.go automaticHTTPSPhase1: the left-hand sides of the assignments that store
+    through the host matcher `hm` it walks (`hm, ok := m.(*MatchHost)` itself is a definition, not a store) -/
+def autoHTTPSHostMatcherStores : List String := []
 
 end CaddyModel.Gen
